@@ -202,7 +202,7 @@ Definition inline_phases (st : slstore) (t : refs_tbl) (s : oset) : list phase :
 Definition inline_set (st : slstore) (t : refs_tbl) (s : oset) : oset := set_phases s (inline_phases st t s).
 
 Definition inline_sw (st : slstore) (t : refs_tbl) (sw : sworld) : sworld :=
-  {| sw_w := sw_w sw; sw_sets := map (inline_set st t) (sw_sets sw) |}.
+  {| sw_w := sw_w sw; sw_sets := map (inline_set st t) (sw_sets sw); sw_phases := sw_phases sw; sw_nss := sw_nss sw |}.
 Definition inline_of (x : xworld) : sworld := inline_sw (xs_store (xw_sl x)) (xw_refs x) (xw_sw x).
 
 (** Every slice an ObjectSet references exists. *)
